@@ -585,6 +585,9 @@ RCP<const Basic> load_basic(Archive &ar, RCP<const And> &)
 {
     set_boolean container;
     ar(container);
+    if (container.empty()) {
+        throw SerializationError("invalid And: no operands");
+    }
     return make_rcp<const And>(std::move(container));
 }
 template <class Archive>
@@ -592,6 +595,9 @@ RCP<const Basic> load_basic(Archive &ar, RCP<const Or> &)
 {
     set_boolean container;
     ar(container);
+    if (container.empty()) {
+        throw SerializationError("invalid Or: no operands");
+    }
     return make_rcp<const Or>(std::move(container));
 }
 template <class Archive>
@@ -599,6 +605,9 @@ RCP<const Basic> load_basic(Archive &ar, RCP<const Xor> &)
 {
     vec_boolean container;
     ar(container);
+    if (container.empty()) {
+        throw SerializationError("invalid Xor: no operands");
+    }
     return make_rcp<const Xor>(std::move(container));
 }
 template <class Archive>
@@ -613,6 +622,9 @@ RCP<const Basic> load_basic(Archive &ar, RCP<const Piecewise> &)
 {
     PiecewiseVec vec;
     ar(vec);
+    if (vec.empty()) {
+        throw SerializationError("invalid Piecewise: no branches");
+    }
     return make_rcp<const Piecewise>(std::move(vec));
 }
 template <class Archive>
@@ -653,6 +665,9 @@ RCP<const Basic> load_basic(Archive &ar, RCP<const Union> &)
 {
     set_set union_set;
     ar(union_set);
+    if (union_set.empty()) {
+        throw SerializationError("invalid Union: no operands");
+    }
     return make_rcp<const Union>(std::move(union_set));
 }
 template <class Archive>
@@ -675,6 +690,9 @@ RCP<const Basic> load_basic(Archive &ar, RCP<const FiniteSet> &)
 {
     set_basic set;
     ar(set);
+    if (set.empty()) {
+        throw SerializationError("invalid FiniteSet: no elements");
+    }
     return make_rcp<const FiniteSet>(set);
 }
 template <class Archive>
@@ -701,6 +719,9 @@ RCP<const Basic> load_basic(Archive &ar, RCP<const Derivative> &)
     RCP<const Basic> arg;
     multiset_basic set;
     ar(arg, set);
+    if (set.empty()) {
+        throw SerializationError("invalid Derivative: no variables");
+    }
     return make_rcp<const Derivative>(arg, std::move(set));
 }
 template <class Archive>
